@@ -67,7 +67,7 @@ Qed.
 Lemma idle_shape s evs0 s' evs : idle s evs0 = (s', evs) -> forallb inert evs0 = true ->
   forallb inert evs = true /\ lastTake s' = lastTake s /\ lastJoin s' = lastJoin s /\ (INV s -> INV s').
 Proof.
-  unfold idle. intros H IN. destruct (zombie s); inversion H; subst.
+  unfold idle. intros H IN. destruct (zombie s && negb (fast_nonempty s) && negb (queue_nonempty s)); inversion H; subst.
   - rewrite forallb_app, IN. destruct s; cbn. auto.
   - auto.
 Qed.
@@ -141,7 +141,9 @@ Proof.
            assert (LJ0 : lastJoin (set_lastTake s now) = lastJoin s) by (destruct s; reflexivity).
            rewrite LJ0 in LJ.
            assert (s1 = s2 /\ exists tl, evs = Took FromQueue e now :: tl /\ forallb inert tl = true).
-           { destruct (filt (snd e)); inversion H; subst; (split; [reflexivity|]); eexists; split; reflexivity. }
+           { apply finish_cases in H. destruct H as [-> [x [-> K0]]]. split; [reflexivity|].
+             eexists; split; [reflexivity|].
+             destruct K0 as [[? [-> _]]|[[? [-> _]]|[? [-> _]]]]; reflexivity. }
            destruct H0 as [-> [tl [-> IT]]].
            exists (Some now), (if is_join e then Some now else lj).
            split; [simpl; lia|]. split.
@@ -182,7 +184,8 @@ Proof.
         apply (TJ_inert s evs s1 I1 B C A I).
   - intro H.
     assert (s1 = set_fast s fr /\ forallb inert evs = true).
-    { destruct (filt (snd e)); inversion H; subst; split; reflexivity. }
+    { apply finish_cases in H. destruct H as [-> [x [-> K0]]]. split; [reflexivity|].
+      destruct K0 as [[? [-> _]]|[[? [-> _]]|[? [-> _]]]]; reflexivity. }
     destruct H0 as [-> IN].
     apply (TJ_inert s evs (set_fast s fr) I1); auto; destruct s; reflexivity.
 Qed.
